@@ -20,6 +20,11 @@ demo = demo.replace('"%s"' % wt, expr).replace("'%s'" % wt, expr)
 demo = demo.replace("/tmp/seed_out/%s/%s/demo.py" % (agent, k), "/verif/seeded/%s/demo.py" % sid)
 demo = demo.replace(wt, "$SDP_TREE")
 open(os.path.join(dst, "demo.py"), "w").write(demo)
+import py_compile
+try:
+    py_compile.compile(os.path.join(dst, "demo.py"), doraise=True)
+except py_compile.PyCompileError as e:
+    print("WARNING: rewritten demo does not compile (path literal inside a quoted string?): %s" % e)
 meta_p = os.path.join(dst, "meta.json")
 meta = json.load(open(meta_p)) if os.path.exists(meta_p) else {}
 meta.update({"id": sid, "property": prop, "origin": "independent sub-agent %s, change %s (given only the property text and a scratch worktree)" % (agent, k),
